@@ -252,12 +252,12 @@ func c16SimpleModel(kind string) *mc.Model {
 }
 
 func runC16(c *Ctx) {
-	depth := c.Pick(5, 7)
+	depth := c.Pick(5, 6)
 	for _, cfg := range limGrid(0) {
 		for _, w := range []string{"", "windowed", "traced"} {
 			cfg := cfg
 			cfg.wrapper = w
-			c.runBFS(c16Model(cfg), mc.BFSOptions{MaxDepth: depth, DevBound: c.Pick(1, 2), MaxStates: 400000})
+			c.runBFS(c16Model(cfg), mc.BFSOptions{MaxDepth: depth, DevBound: c.Pick(1, 2), MaxStates: c.Pick(400000, 3000000)})
 		}
 	}
 	for _, k := range []string{"settable", "fixed", "traced(settable)", "traced(script)", "windowed(settable)", "traced(windowed(script))"} {
